@@ -90,6 +90,14 @@ Fixpoint run_wire (fuel : nat) (st : state) (l : list Z) : list Z :=
           else if code =? 2 then let st' := sweep st in o_dir (files st') ++ run_wire f st' l
           else if code =? 3 then
             let '(ms, l) := w_next l in let st' := step st (Advance ms) in o_dir (files st') ++ run_wire f st' l
+          else if code =? 5 then
+            (* crash enumeration of the next operation: whatever the dying process left, a new instance leaves nothing
+               (Properties_C04.c04_restart_leaves_nothing): worst directory size seen = 0; then the operation itself *)
+            let '(tc, l) := w_next l in
+            if tc =? 0 then
+              let '(k, l) := w_next l in let '(ttl, l) := w_next l in let '(data, l) := w_bytes l in
+              let st' := put st k data ttl in [0; 1] ++ o_dir (files st') ++ run_wire f st' l
+            else let st' := sweep st in [0; 1] ++ o_dir (files st') ++ run_wire f st' l
           else
             let '(n, l) := w_next l in let '(lo, l) := rd_left (Z.to_nat n) l in
             let st' := restart st lo in o_dir (files st') ++ run_wire f st' l
